@@ -441,6 +441,23 @@ Proof. exact clear_journal_slot_roundtrip. Qed.
 Check clear_journal_record_roundtrip : forall g rest total, 0 < g -> g < 2 ^ 64 -> decode_slot (encode_journal g JOURNAL_CLEAR [] ++ rest) total = Some (g, []).
 Print Assumptions clear_journal_record_roundtrip.
 
+(* any journal record: CLEAR, or ACTIVE naming up to 1024 valid, non-overlapping extents -- the slot
+   decoder returns the generation and exactly the extents the encoder was given *)
+Theorem journal_record_roundtrip : forall g state exts rest total,
+  0 < g -> g < 2 ^ 64 ->
+  (state = JOURNAL_CLEAR /\ exts = []) \/ (state = JOURNAL_ACTIVE /\ exts <> []) ->
+  N.of_nat (length exts) <= ALLOCATION_JOURNAL_MAX_ENTRIES ->
+  Forall (ext_valid total) exts -> no_overlap_sorted (sort_by_start exts) = true ->
+  decode_slot (encode_journal g state exts ++ rest) total = Some (g, exts).
+Proof. exact MetaJournalProofs.journal_record_roundtrip. Qed.
+Check journal_record_roundtrip : forall g state exts rest total,
+  0 < g -> g < 2 ^ 64 ->
+  (state = JOURNAL_CLEAR /\ exts = []) \/ (state = JOURNAL_ACTIVE /\ exts <> []) ->
+  N.of_nat (length exts) <= ALLOCATION_JOURNAL_MAX_ENTRIES ->
+  Forall (ext_valid total) exts -> no_overlap_sorted (sort_by_start exts) = true ->
+  decode_slot (encode_journal g state exts ++ rest) total = Some (g, exts).
+Print Assumptions journal_record_roundtrip.
+
 Theorem journal_with_a_clear_record_decodes_clear : forall g rest0 s1 total, 0 < g -> g < 2 ^ 64 -> all_zero s1 = true ->
   decode_journal (encode_journal g JOURNAL_CLEAR [] ++ rest0) s1 total = Some (g, 0, []).
 Proof. exact journal_with_clear_records_decodes_clear. Qed.
